@@ -1,6 +1,7 @@
 """C08 — nominal values only rescale the numerics (optimisation part; the simulator's get/set_var in
 physical units is exercised by C09)."""
 import json
+import os
 from fractions import Fraction
 
 from .. import core, tr, trcheck
@@ -100,3 +101,48 @@ def metamorphic(s, s2, o, ctx):
     if not tr.close(f1, float(f2), 1e-7):
         return {"what": "objective", "a": f1, "b": float(f2)}
     return None
+
+
+# ---- goal function nominals only rescale: a goal-programming run does not depend on them ---------------------
+def gp_nominal_pairs(ctx):
+    """the same goals with different function nominals (relaxed minimisation goals, target goals) must give
+    the same trajectories: priority 1 minimises a function with a relaxation, priority 2 pulls the other way,
+    so the final value is pinned at optimum + relaxation whatever the nominal"""
+    import json
+    from . import c02
+    rng = ctx.rng
+    for _ in range(ctx.n(5, 120)):
+        n = rng.choice([2, 3])
+        E = rng.choice([1, 2])
+        fn = rng.choice(["y", "z"])
+        relax = rng.choice(["1/2", "1", "2"])
+        g1 = {"path": rng.random() < 0.6, "fn": fn, "prio": 1, "k": rng.randrange(n), "order": 1, "weight": 1, "nominal": 1, "relax": relax, "fk": "g1"}
+        g2 = {"path": g1["path"], "fn": fn, "prio": 2, "k": g1["k"], "order": rng.choice([1, 2]), "weight": 1, "nominal": 1,
+              "tmin": 11.0 if fn == "y" else 19.0, "fk": "g2"}
+        base = {"k": "run", "times": list(range(n)), "E": E, "p": [0, "1/2"][:E], "variant": "multi", "goals": [g1, g2], "options": {}}
+        other = json.loads(json.dumps(base))
+        nom = rng.choice([100, "1/4", 10])
+        other["goals"][0]["nominal"] = nom
+        if rng.random() < 0.5:
+            other["goals"][1]["nominal"] = rng.choice([2, 50])
+        outs = [c02.run_case(c) for c in (base, other)]
+        ctx.case_done(core.fingerprint(["gpnominal", n, E, fn, relax, str(nom), g1["path"]]), True)
+        ctx.count("gp_nominal_pairs")
+        if any("error" in o or not o.get("ok") for o in outs):
+            ctx.count("gp_nominal_pair_unsolved")
+            continue
+        fa = [[float(v) for v in outs[0]["snaps"][-1]["results"][m][fn]] for m in range(E)]
+        fb = [[float(v) for v in outs[1]["snaps"][-1]["results"][m][fn]] for m in range(E)]
+        idx = range(n) if g1["path"] else [g1["k"]]
+        if any(abs(fa[m][k] - fb[m][k]) > 1e-5 * (1 + abs(fa[m][k])) for m in range(E) for k in idx):
+            ctx.violation("nominals/goal-function-nominal", {"case": base, "rescaled_case": other, fn + "_nominal_1": fa, fn + "_rescaled": fb},
+                          what="changing goal function nominals (1 -> %s) changed the result: %s = %s vs %s" % (nom, fn, fa, fb))
+
+
+_run_core = run
+
+
+def run(ctx):  # noqa: F811
+    _run_core(ctx)
+    if not os.environ.get("VERIF_REPLAY"):
+        gp_nominal_pairs(ctx)
